@@ -22,6 +22,9 @@ Static clauses decided (necessary conditions of C16): the ordering skeleton of a
          every path that sets the status, with _save_pos_ = the new index), and when it already held a slot as a pending UPDATE
          that slot is vacated (set to None).  Reusing the old slot would emit its DELETE before the DELETE/UPDATE of the rows
          that still reference it.
+ POS     as C13-POS.
+ M2M     _calc_modified_m2m collects the pending added / removed pairs of every object of a modified collection whatever the object's
+         status (scenarios marked_to_delete / not): link rows of a deleted object are deleted by the same flush, before its own row.
 """
 # "flush raises an error and the session's writes are not committed": that the writes made before the error are inside a transaction that is then
 # rolled back is exactly what the C17 clauses establish (transaction opened before the first write, flag set only after BEGIN succeeded, no reconnect in
